@@ -311,6 +311,11 @@ def realArg (isInterval : Bool) : Res Unit := if isInterval then .error .type el
 /-- `np.concatenate(list)`: `ValueError` on an empty list. -/
 def npConcatenate (n : Nat) : Res Unit := if n = 0 then .error .value else .ok ()
 
+/-- `distances_end[-1] = min(distances_end[-1], max_dist)` in `_draw_bound` (mp_renderer.py:1089-1092): `n` = number of dash
+    starts `np.arange(linewidth / 2, max_dist, 18.0)`; indexing the last element of an empty array is an `IndexError`.
+    The code has no guard (known finding, proposed_fixes/C19_dashed_marking_on_short_bound.patch). -/
+def dashEndsUnguarded (n : Nat) : Res Unit := if n = 0 then .error .index else .ok ()
+
 /-- `position[0]` without the `is_uncertain_position` test (the code before the repair). -/
 def anchorUnguarded (s : StateInfo) : Res Anchor := do indexXY s.uncPos; pure .exact
 
@@ -539,5 +544,32 @@ def clearBuffers (keep : Bool) (b : Buffers) : Buffers :=
 def showFrames : Buffers → List Frame → List Buffers
   | _, [] => []
   | b, fr :: rest => fr.draw b :: showFrames (clearBuffers fr.keepStatic (fr.draw b)) rest
+
+/-! The same buffers under an arbitrary history of the renderer's public operations: draws, `clear(keep)`,
+`render(keep)` (shows, then clears) and `render_dynamic()` (shows, does not clear — the per-frame step of
+`create_video`, which calls `clear()` *before* the draws of a frame, mp_renderer.py:395-404). -/
+
+inductive ROp where
+  | draw (fr : Frame)
+  | clear (keep : Bool)
+  | render (keep : Bool)
+  | renderDynamic
+  deriving Repr
+
+/-- buffers after a history -/
+def stateAfter : Buffers → List ROp → Buffers
+  | b, [] => b
+  | b, .draw fr :: r => stateAfter (fr.draw b) r
+  | b, .clear k :: r => stateAfter (clearBuffers k b) r
+  | b, .render k :: r => stateAfter (clearBuffers k b) r
+  | b, .renderDynamic :: r => stateAfter b r
+
+/-- what every `render` / `render_dynamic` of a history shows -/
+def runOps : Buffers → List ROp → List Buffers
+  | _, [] => []
+  | b, .draw fr :: r => runOps (fr.draw b) r
+  | b, .clear k :: r => runOps (clearBuffers k b) r
+  | b, .render k :: r => b :: runOps (clearBuffers k b) r
+  | b, .renderDynamic :: r => b :: runOps b r
 
 end CR.Draw
